@@ -66,6 +66,12 @@ void GlobalGraph::edgeMustExist_(const GlobalGraph::Edge& edge, string name) con
 
 GlobalGraph::Edge GlobalGraph::link(Graph::NodeId nodeA, Graph::NodeId nodeB)
 {
+  // both nodes must exist, and a row holds at most one edge per neighbor
+  nodeMustExist_(nodeA, "first node to link");
+  nodeMustExist_(nodeB, "second node to link");
+  if (nodeStructure_.find(nodeA)->second.first.count(nodeB))
+    throw Exception("GlobalGraph::link : nodes already linked " + TextTools::toString(nodeA) + "->" + TextTools::toString(nodeB));
+
   // which ID is available?
   GlobalGraph::Edge edgeID = highestEdgeID_++;
 
@@ -84,6 +90,12 @@ void GlobalGraph::link(Graph::NodeId nodeA, Graph::NodeId nodeB, GlobalGraph::Ed
   if (edgeStructure_.find(edgeID) != edgeStructure_.end())
     throw Exception("GlobalGraph::link : already existing edgeId " + TextTools::toString(edgeID));
 
+  // both nodes must exist, and a row holds at most one edge per neighbor
+  nodeMustExist_(nodeA, "first node to link");
+  nodeMustExist_(nodeB, "second node to link");
+  if (nodeStructure_.find(nodeA)->second.first.count(nodeB))
+    throw Exception("GlobalGraph::link : nodes already linked " + TextTools::toString(nodeA) + "->" + TextTools::toString(nodeB));
+
   // writing the new relation to the structure
   linkInNodeStructure_(nodeA, nodeB, edgeID);
   if (!directed_)
@@ -97,7 +109,14 @@ vector<GlobalGraph::Edge> GlobalGraph::unlink(Graph::NodeId nodeA, Graph::NodeId
 {
   // unlinking in the structure
   vector<GlobalGraph::Edge> deletedEdges; // what edges ID are affected by this unlinking
+  nodeMustExist_(nodeA, "first node to unlink");
+  nodeMustExist_(nodeB, "second node to unlink");
   deletedEdges.push_back(unlinkInNodeStructure_(nodeA, nodeB));
+  if (!directed_ && nodeA != nodeB)
+  {
+    // an undirected relation is stored in both directions
+    unlinkInNodeStructure_(nodeB, nodeA);
+  }
 
   for (auto& currEdgeToDelete : deletedEdges)
   {
@@ -194,7 +213,7 @@ unsigned int GlobalGraph::unlinkInNodeStructure_(const GlobalGraph::Node& nodeA,
   // Backwards
   nodeStructureType::iterator nodeBRow = nodeStructure_.find(nodeB);
   map<GlobalGraph::Node, GlobalGraph::Edge>::iterator foundBackwardsRelation = nodeBRow->second.second.find(nodeA);
-  if (foundBackwardsRelation == nodeBRow->second.first.end())
+  if (foundBackwardsRelation == nodeBRow->second.second.end())
     throw Exception("GlobalGraph::unlinkInNodeStructure_ : no edge to erase " + TextTools::toString(nodeB) + "<-" + TextTools::toString(nodeA));
 
   nodeBRow->second.second.erase(foundBackwardsRelation);
@@ -227,6 +246,9 @@ Graph::NodeId GlobalGraph::createNode()
 
 Graph::NodeId GlobalGraph::createNodeFromNode(Graph::NodeId origin)
 {
+  // origin must be an existing node
+  nodeMustExist_(origin, "origin node");
+
   Graph::NodeId newNode = createNode();
   link(origin, newNode);
   this->topologyHasChanged_();
